@@ -105,6 +105,15 @@ def check(ctx, p):
                     if e[0] == "idx" and _is_self(e[1]):
                         ins.append(e[2])
                         return ("in",)
+                    # iterator form: `for &c in self.iter().rev()` - the item of an iterator over self
+                    if e[0] == "field" and e[2] == "0" and e[1][0] == "variant" and e[1][2] == "Some" and e[1][1][0] == "call" and e[1][1][1].endswith("::next"):
+                        it = e[1][1][2][0]
+                        if it[0] == "call" and it[1].endswith("Iterator::rev") and _is_self(it[2][0]):
+                            ins.append(("iter", "down"))
+                            return ("in",)
+                        if _is_self(it):
+                            ins.append(("iter", "up"))
+                            return ("in",)
                     return None
                 pol = to_poly(val, at2)
                 g = lambda o: Poly.atom(("g", Poly.const(o)))
@@ -155,13 +164,21 @@ def check(ctx, p):
                 ctx.fail("C14-R4", FREQT, "input", "no read of the input cepstrum feeds g[0]", b.loc())
             else:
                 idx, some = n_in
-                ip = syms.poly(idx)
+                if isinstance(idx, tuple) and idx and idx[0] == "iter":
+                    if idx[1] == "down":
+                        ctx.ok("C14-R4", "the input is consumed from order len-1 down to 0 (`self.iter().rev()`)", b.loc())
+                    else:
+                        ctx.fail("C14-R4", FREQT, "input order", "the recursion is fed by a forward iteration over the input cepstrum: it must be consumed from the highest order down to order 0 (otherwise the transform of the reversed cepstrum is computed)", b.loc())
+                    idx = None
+                ip = syms.poly(idx) if idx is not None else None
                 N = None
-                for n in some:
+                for n in (some if idx is not None else []):
                     inf = syms.info[n]
                     if inf["start"] == zero and inf["end"] == frozenset([LS]):
                         N = n
-                if N is None:
+                if idx is None:
+                    pass
+                elif N is None:
                     ctx.fail("C14-R4", FREQT, "input loop", "the step loop does not run over 0..len(self)", b.loc())
                 else:
                     nv = syms.lv(N)
